@@ -13,16 +13,16 @@ def build():
     u.ghost_call("request_certificate", quals=("",))
     u.ghost_call("call_post_operation_hooks", method=True)
     u.module("main_event_loop", "use crate::*;\nuse crate::shims::*;\nuse crate::acme_common::error::Error;\nuse std::time::Duration;")
-    u.verify(M, "renew_certificate", "main_event_loop", props=["C07", "C06", "C09"], fns={"renew_certificate": FnSpec(ret="r", ghost=True, sig="""
+    u.verify(M, "renew_certificate", "main_event_loop", props=["C07", "C06", "C09", "C10"], fns={"renew_certificate": FnSpec(ret="r", ghost=True, sig="""
     requires -CLOCK_MAX() <= old(w).clock <= CLOCK_MAX(),
     ensures
         // exactly one request and exactly one post-operation hook run per attempt
         final(w).requests == old(w).requests + 1, //@C07.one_request_per_attempt
-        final(w).postops == old(w).postops + 1, //@C07.post_operation_hooks_exactly_once
+        final(w).postops == old(w).postops + 1, //@C07.post_operation_hooks_exactly_once,C10.post_operation_hooks_exactly_once
         // success is reported iff the request succeeded, failure carries the error text
-        final(w).last_postop_success == final(w).last_request_ok, //@C07.reported_status_is_request_outcome
-        final(w).last_request_ok ==> final(w).last_postop_status == "success"@, //@C07.success_text
-        !final(w).last_request_ok ==> final(w).last_postop_status == prefix_spec(final(w).last_request_err, "unable to renew the certificate"@), //@C07.failure_carries_error_text
+        final(w).last_postop_success == final(w).last_request_ok, //@C07.reported_status_is_request_outcome,C10.reported_status_is_request_outcome
+        final(w).last_request_ok ==> final(w).last_postop_status == "success"@, //@C07.success_text,C10.success_text
+        !final(w).last_request_ok ==> final(w).last_postop_status == prefix_spec(final(w).last_request_err, "unable to renew the certificate"@), //@C07.failure_carries_error_text,C10.failure_carries_error_text
         // after a failure at least a second passes before this task is handed back (and re-queued)
         !final(w).last_request_ok ==> final(w).slept_since_request >= 1_000_000_000, //@C07.pause_after_failure
         // the task hands back the very handles it was given: the account and the endpoint (with its rate limiter) stay the shared ones
